@@ -246,7 +246,11 @@ func CheckC09(p *Pkg, e *Env, r *res.Result) {
 			return
 		}
 		if len(in.Calls) != 1 {
-			fail("not-dispatched:"+notDispatchedClass(params), fmt.Sprintf("the request reached %d handlers (client error: %v)", len(in.Calls), cerr))
+			cls := notDispatchedClass(params)
+			if cerr != nil && strings.Contains(cerr.Error(), "marshal request body") {
+				cls = "client-cannot-encode-body"
+			}
+			fail("not-dispatched:"+cls, fmt.Sprintf("the request reached %d handlers (client error: %v)", len(in.Calls), cerr))
 			return
 		}
 		call := in.Calls[0]
@@ -272,6 +276,16 @@ func CheckC09(p *Pkg, e *Env, r *res.Result) {
 				kind := "invalid-wire:" + firstWordsN(msg, 3)
 				if b := params.FieldByName("Body"); b.IsValid() && strings.TrimSpace(string(capturedBody)) == "null" && (b.Kind() == reflect.Slice || b.Kind() == reflect.Map) && b.IsNil() {
 					kind = "invalid-wire:nil-body-encoded-as-null"
+				} else if b.IsValid() && strings.Contains(msg, "body does not validate") {
+					// does the body validate once nil slices / maps inside it are replaced by empty
+					// ones? then the only cause is a nil collection written as null (C07-F4)
+					if nb, nerr := safeMarshal(NormalizeNil(b).Interface()); nerr == nil {
+						if nt, derr := refmodel.DecodeJSON(nb); derr == nil {
+							if rb := p.Doc.ResolveRequestBody(op.Spec.RequestBody); rb != nil && rb.Content["application/json"] != nil && len(va.Validate(rb.Content["application/json"].Schema, nt)) == 0 {
+								kind = "invalid-wire:nil-collection-encoded-as-null"
+							}
+						}
+					}
 				}
 				fail(kind, msg)
 				return
